@@ -1,12 +1,12 @@
 import CstModel.Driver.Core
-import CstModel.Generated.SourceFacts
+import CstModel.Generated.DriverFacts
 namespace Cst.Drv
 
 def internStep (s : DState) (ws : List String) : Option (DState × String) :=
   -- `intern_nt` is the panicking entry point `get_or_intern`; same function in the model
   match (match ws with | "intern_nt" :: r => "intern" :: r | w => w) with
   | ["interner", backend] =>
-    match backendCap SourceFacts.nIndices backend with
+    match backendCap DriverFacts.nIndices backend with
     | none => some (s, "bad-op")
     | some cap =>
       let n := s.interners.size
@@ -35,16 +35,16 @@ def internStep (s : DState) (ws : List String) : Option (DState × String) :=
     match raw.toNat? with
     | some r =>
       if r < 2 ^ 32 then
-        let g := UInt32.ofNat SourceFacts.keyGuard
-        match tryFromU32 g (UInt32.ofNat SourceFacts.keyShiftUp) (UInt32.ofNat r) with
-        | some inner => some (s, s!"key {inner.toNat} {(intoU32 (UInt32.ofNat SourceFacts.keyShiftDown) inner).toNat}")
+        let g := UInt32.ofNat DriverFacts.keyGuard
+        match tryFromU32 g (UInt32.ofNat DriverFacts.keyShiftUp) (UInt32.ofNat r) with
+        | some inner => some (s, s!"key {inner.toNat} {(intoU32 (UInt32.ofNat DriverFacts.keyShiftDown) inner).toNat}")
         | none => some (s, "none")
       else some (s, "bad-op")
     | none => some (s, "bad-op")
   | ["usizekey", n] =>
     match n.toNat? with
     | some n =>
-      match tryFromUsize (UInt32.ofNat SourceFacts.keyGuard) (UInt32.ofNat SourceFacts.keyShiftUp) n with
+      match tryFromUsize (UInt32.ofNat DriverFacts.keyGuard) (UInt32.ofNat DriverFacts.keyShiftUp) n with
       | some inner => some (s, s!"key {inner.toNat}")
       | none => some (s, "none")
     | none => some (s, "bad-op")
